@@ -421,11 +421,22 @@ Fixpoint import_blocks (p : params) (own : owner_fn) (n : node) (k stop : Z)
       else import_blocks p own n k stop acc rest
   end.
 
+(* the node's block at height h is the block the handler has synced at that height (SyncedBlock(h) against
+   the node's header of height h); false when either is missing *)
+Definition node_on_synced (n : node) (ws : wstate) (h : Z) : bool :=
+  match node_at n h, synced_at ws h with
+  | Some nb, Some bid => (bid =? b_id nb)%N
+  | _, _ => false
+  end.
+
 (* asyncImport: ONE commit covering the heights (cursor, min(cursor + B, best)] where best is the
    handler's tip; hand-over (status ready) when that reaches best.  [B] is the batch size (1000 in
    the code).  The node [n] is read as it is NOW: it may be ahead of, or on another branch than,
    the handler's synced chain.  A batch that meets the spend of a coin it does not have
-   (ErrUnexpectedCreditNotFound) made the worker drop the task as found; repaired, it is retried. *)
+   (ErrUnexpectedCreditNotFound) made the worker drop the task as found; repaired, it is retried.
+   As found, whatever was read is committed; repaired (f_import_tipcheck), the batch is refused
+   (ErrImportingContinuable: retried) unless the node's block at the batch's upper height is the
+   handler's synced block of that height, i.e. unless the blocks read are blocks of the handler's chain. *)
 Definition import_batch (fx : fixes) (p : params) (B : Z) (n : node) (st : xstate) (w : N) : xstate * iout :=
   match status_of st w with
   | Some (WImporting k) =>
@@ -437,6 +448,7 @@ Definition import_batch (fx : fixes) (p : params) (B : Z) (n : node) (st : xstat
         | inr IAbandon => if f_import_retry fx then (st, IRetry) else (with_dead st (x_dead st ++ [w]), IAbandon)
         | inr e => (st, e)
         | inl (cs, brs) =>
+            if f_import_tipcheck fx && negb (node_on_synced n (x_w st) stop) then (st, IRetry) else
             (with_status (with_brecs (with_w st {| credits := cs; synced := synced (x_w st) |}) brs)
                          (setN (x_status st) w (if stop =? best then WReady else WImporting stop)), IOk)
         end
